@@ -403,6 +403,7 @@ class NPModel(NSModel):
             "errstate": B("np.errstate", lambda **kw: None),
             "seterr": B("np.seterr", lambda **kw: None),
             "issubdtype": B("np.issubdtype", lambda a, b: True),
+            "result_type": B("np.result_type", lambda *a: DT_F8),
             "dtype": B("np.dtype", lambda x: x),
         }
         NSModel.__init__(self, "numpy", tab)
